@@ -11,7 +11,11 @@ Model of node selection (C21), statement by statement:
 * `/repo/store/*/node.go` `GetNode`, `GetNodesByPod`/`doGetNodes` — environment model: the
   store is a list of nodes with distinct names; a pod listing returns, in an unspecified order
   (parameter `listed`), the nodes of the pod (every pod when `podname = ""`) that carry the
-  requested labels, without down (bypassed or unavailable) nodes unless `all`.
+  requested labels, without down (bypassed or unavailable) nodes unless `all`.  With `podname = ""`
+  the Go code iterates `GetAllPods` and lists each pod; the model lists the nodes of every pod
+  directly — the same thing under the store invariant that a node's pod exists (`AddNode` refuses
+  an unknown pod, `RemovePod` refuses a pod that still has nodes); the harness only builds such
+  stores.
 
 Go `slices.Sort`/`sort.Strings` on strings has a unique result (total order, equal strings
 are indistinguishable); `sort.SliceStable` is a stable sort: both are modelled by the stable
